@@ -210,6 +210,17 @@ def run(tier):
                 if m and m != src:
                     d = "Into" if "into" in src else ("From" if "from" in src else ("AsRef" if "as_ref" in src else "TryInto"))
                     lines.append(f"expand {d} {C.hexs(m)}"); meta.append((d, m, "mutated-attr"))
+        # a separator comma left out at every position of the typed attribute lists: a diagnostic, never a `Punctuated` assertion
+        # (deterministic since the statement-deletion batch of session 3: the random comma deletions hit these only at times)
+        for d, src in (("Into", "#[into(owned(i64) i32)] struct S(i32);"), ("Into", "#[into(owned(i64) ref(i32))] struct S(i32);"),
+                       ("Into", "#[into(i64 i32)] struct S(i32);"), ("Into", "#[into(ref(i32) ref_mut)] struct S(i32);"),
+                       ("Into", "#[into(ref ref_mut(i32))] struct S(i32);"), ("Into", "struct S { #[into(owned(i64) i32)] a: i32, b: u8 }"),
+                       ("Into", "#[into(owned(i64, i128) owned)] struct S(i32);"), ("Into", "#[into(owned(i64,) i32)] struct S(i32);"),
+                       ("From", "#[from(u8 u16)] struct S(u32);"), ("From", "enum E { #[from(u8 u16)] A(u32), B }"),
+                       ("AsRef", "#[as_ref(str String)] struct S(String);"), ("AsMut", "struct S { #[as_mut(str [u8])] a: String }"),
+                       ("TryInto", "#[try_into(owned ref)] enum E { A(u8) }"), ("Display", '#[display("x" 1)] struct S;'),
+                       ("Display", '#[display("{} {}", 1 2)] struct S;'), ("Debug", '#[debug("{}" a)] struct S { a: u8 }')):
+            lines.append(f"expand {d} {C.hexs(src)}"); meta.append((d, src, "missing-comma"))
         for src in shapes:
             for d in derives:
                 lines.append(f"expand {d} {C.hexs(src)}"); meta.append((d, src, "kind"))
